@@ -10,7 +10,7 @@ LEVEL = "exploration"
 RULE = ("E1: ('dict', entries) = every dictionary with <= n entries (n=3 quick, 4 thorough) over the universe keys {0001,0002,FFFF} x value ids "
         "{00,01,FE} x kinds {set with content length 0,1,50,110,111,112 | delete-value | delete-key}; ('sum', keys-mode, lengths) = every length "
         "vector over {0,1,37,54,55,56,111,112}^n, n <= 4 (5 thorough), under one key and under alternating keys, plus a directed family where, after every prefix over {0,1,20,37,54}^(<=3), the last length is "
-        "chosen so that a merged block would close at exactly 112..120 bytes (with and without a following entry); ('big', L, position) = oversize entries incl. 249..254 first/middle/last; ('extra', i) caller-supplied "
+        "chosen so that a merged block would close at exactly 112..120 bytes (with and without a following entry); ('fill', n, filler, sets) = n in {0,1,2,30,49..58} delete-values of one key (or delete-keys) filling the first block, followed by every sequence of <= 3 assignments over keys below / at / above that key x lengths {0,1,20,50,110}; ('big', L, position) = oversize entries incl. 249..254 first/middle/last; ('extra', i) caller-supplied "
         "blocks. Oracle: independent decoder (length-prefixed blocks, one closing 00, no empty block) gives exactly the reference operation "
         "list (all deletions sorted, then all assignments sorted, each once, exact content); every block <= 117 when every entry fits; extra "
         "blocks follow unchanged; component tags/flag/declared length. Distinct = distinct dictionaries; non-trivial = at least one entry.")
@@ -75,6 +75,17 @@ def cases(ctx):
                         last = target - fixed - sum(prefix)
                         if 0 <= last <= 111:
                             yield ("sum", mode, tuple(prefix) + (last,) + ((3,) if tail else ()))
+    # blocks filled by many small deletions (delete-values of key K / delete-keys), followed by up to 3 assignments whose
+    # keys lie below, at and above K: exercises splitting and merging right after a nearly full block
+    fills = [0, 1, 2, 30] + list(range(49, 59))
+    sets_alpha = [(k, ln) for k in (0x0003, 0x0005, 0x0007) for ln in (0, 1, 20, 50, 110)]
+    for n in fills:
+        for filler in ("delval", "delkey"):
+            for m in range(1, 4 if ctx.quick else 4):
+                for combo in product(range(len(sets_alpha)), repeat=m):
+                    if m == 3 and (filler == "delkey" or n in (1, 2, 30)) and ctx.quick:
+                        continue
+                    yield ("fill", n, filler, combo)
     for L in (112, 113, 200, 248, 249, 250, 251, 254):
         for pos in ("first", "middle", "last", "only"):
             yield ("big", L, pos)
@@ -174,6 +185,23 @@ def run_case(ctx, case):
             key = 0x0100 if mode == "one" else 0x0100 + (i % 2) * 0x100 + (i // 2)
             vid = i if mode == "one" else 1
             conf[(key, vid)] = content(key, vid, ln)
+        return check(Outcome("ok", True), conf)
+    if kind == "fill":
+        _, n, filler, combo = case
+        sets_alpha = [(k, ln) for k in (0x0003, 0x0005, 0x0007) for ln in (0, 1, 20, 50, 110)]
+        conf = {}
+        for i in range(n):
+            if filler == "delval":
+                conf[(0x0005, i)] = None
+            else:
+                conf[(0x0100 + i, None)] = None
+        for j, ci in enumerate(combo):
+            k, ln = sets_alpha[ci]
+            if filler == "delval" and k == 0x0005:
+                vid = 100 + j
+            else:
+                vid = j
+            conf[(k, vid)] = content(k, vid, ln)
         return check(Outcome("ok", True), conf)
     if kind == "big":
         _, L, pos = case
